@@ -2,16 +2,28 @@ SPECIFICATION Spec
 CONSTANTS
   NN = 8
   Wins <- MCWins
-  NTP = 2
+  NTP = 3
+  TPs <- MCTPs
   NG = 2
   Keys = {"none", "content", "ends", "size", "first", "window"}
   ModeReads = {"eval", "construct"}
+  Interps = {"linear", "exp"}
+  Routes = {"global", "api", "ctor", "setter"}
+  Extras = {"none"}
+  CfgReads = {"both", "k-ctor-drops", "x-ctor-drops", "k-setter-noop", "x-setter-noop"}
 INVARIANT HoldFresh
 INVARIANT HoldTwin
 INVARIANT OnRequestedGrid
+INVARIANT OnNodeSchemeFree
+INVARIANT NodeBlind
+INVARIANT RouteBlind
 INVARIANT RefuteSize
 INVARIANT RefuteFirst
 INVARIANT RefuteWindowTwin
 INVARIANT RefuteLatched
+INVARIANT RefuteKDrops
+INVARIANT RefuteXDrops
+INVARIANT RefuteKNoop
+INVARIANT RefuteXNoop
 CONSTRAINT MutantAlphabet
 CHECK_DEADLOCK FALSE
